@@ -392,13 +392,12 @@ pub proof fn lemma_C05_FINDING_incoming_picks_first_in_file(v: NavV, d1: DefV, d
 }
 
 //@tags C15
-/// FINDING (proved): the property text asks for "a symbol's selection range inside its full range".  The prepared
-/// CallHierarchyItem has range = the EMPTY range (line, 0)-(line, 0) and selection_range = the name span
-/// (line, start_char)-(line, end_char): whenever the name does not end at column 0 the selection range is NOT
-/// inside the range.  (Replay: any `def my_fixture():` — start_char 4.)
-pub proof fn lemma_C15_FINDING_prepare_selection_range_outside_range(u: Uri, d: DefV)
-    requires 1 <= d.line, line_fits(d.line), col_fits(d.start_char), col_fits(d.end_char), d.end_char > 0
-    ensures !range_inside(def_item(u, d).selection_range, def_item(u, d).range)
+/// C15 "a symbol's selection range inside its full range", call-hierarchy items (after fix of F-15d): the item's
+/// range is (line, 0)-(line, end_char) and its selection range the name span (line, start_char)-(line, end_char),
+/// so the selection range lies inside the range whenever the span is well-formed.
+pub proof fn lemma_C15_prepare_selection_range_inside_range(u: Uri, d: DefV)
+    requires 1 <= d.line, line_fits(d.line), col_fits(d.start_char), col_fits(d.end_char), d.start_char <= d.end_char
+    ensures range_inside(def_item(u, d).selection_range, def_item(u, d).range)
 {}
 //@tags C15
 /// ... the selection range itself is the name span, unchanged, and well-formed iff start_char <= end_char
@@ -461,10 +460,10 @@ proof fn canary_hover_wherever_implementation(v: NavV, uri: Uri, line: u32, ch: 
     requires goto_or_def_target(v, uri, line, ch) is Some
     ensures goto_target(v, uri, line, ch) is Some
 {}
-/// C15 as the property states it for call-hierarchy items: selection range inside range (FALSE for the code: finding)
-proof fn canary_prepare_selection_range_inside_range(u: Uri, d: DefV)
-    requires 1 <= d.line, line_fits(d.line), col_fits(d.start_char), col_fits(d.end_char), d.start_char <= d.end_char
-    ensures range_inside(def_item(u, d).selection_range, def_item(u, d).range)
+/// the item's range is still the empty range at column 0 (FALSE since the fix of F-15d: it extends to the name's end)
+proof fn canary_prepare_range_is_point(u: Uri, d: DefV)
+    requires 1 <= d.line, line_fits(d.line), col_fits(d.start_char), col_fits(d.end_char), d.end_char > 0
+    ensures def_item(u, d).range == point_range(lsp_line(d.line), 0)
 {}
 /// incoming calls work for the prepared definition without the "first in its file" hypothesis (FALSE: finding)
 proof fn canary_incoming_identifies_prepared_definition(v: NavV, d: DefV, i: int, u: Uri)
